@@ -192,6 +192,30 @@ def render(kind: str, table) -> str:
     return "\n".join(out)
 
 
+def pinned(kind: str):
+    """the pinned skeletons, read back from the hand-written Lean file: [(name, [lines])]"""
+    import re
+
+    path = common.LEAN_DIR / "Scico" / "Proofs" / ("BlockSource.lean" if kind == "block" else "WrapSource.lean")
+    txt = path.read_text()
+    txt = txt[txt.index("def pinned"):]
+    out = []
+    for m in re.finditer(r'"((?:[^"\\]|\\.)*)"', txt):
+        lit = m.group(1).replace('\\"', '"').replace("\\\\", "\\")
+        if lit.startswith("scico/") and ":" in lit and not lit.startswith("scico/ "):
+            out.append((lit, []))
+        elif out:
+            out[-1][1].append(lit)
+    return out
+
+
+def changed_rows(kind: str, repo: Path | None = None):
+    """names (file:function) whose current normalised body differs from the pinned one (or is missing / new)"""
+    cur = dict(read(BLOCK_ENTRIES if kind == "block" else WRAP_ENTRIES, repo))
+    pin = dict(pinned(kind))
+    return sorted(k for k in set(cur) | set(pin) if cur.get(k) != pin.get(k))
+
+
 def generate(kind: str, repo: Path | None = None):
     table = read(BLOCK_ENTRIES if kind == "block" else WRAP_ENTRIES, repo)
     out = common.LEAN_DIR / "Scico" / "Generated" / ("BlockSource.lean" if kind == "block" else "WrapSource.lean")
